@@ -290,11 +290,14 @@ class MerchantEngine:
                     )
                 continue
 
-            # If we get here and have a current rule, it might be an error
+            # If we get here the line is neither a header, an assignment nor a property
             if current_rule is not None:
                 raise MerchantParseError(
                     f"Unexpected content in rule", line_num, line
                 )
+            raise MerchantParseError(
+                f"Unexpected content before the first rule", line_num, line
+            )
 
         # Save final rule
         if current_rule:
